@@ -183,7 +183,7 @@ def replay(body):
 def run(ctx):
     rng = ctx.rng
     ctx.check_theorems()
-    ctx.check_generated(['qus', 'k'])
+    ctx.check_generated(['qus', 'k', 'kcalls', 'kups'])
     # (K) the model pipeline agrees with the implementation on small sub-pixel disks (integer-rounded intensities)
     items = []
     tries = 0
